@@ -16,7 +16,7 @@ mod oracle;
 pub const OP_NAMES: &[&str] = &[
     "NewClient", "TickClient", "TickServer", "Deliver", "Drop", "DropAll", "DeliverAll", "GenPayload", "ClientDisconnect", "ServerDisconnect",
     "SetMaxClients", "Junk", "Mutate", "Replay", "ForgeRequest", "ForgeResponse", "ForgeSession", "TamperEnum", "RestartServer", "Teleport",
-    "TokenSurgery", "CrashClient", "GenBurst",
+    "TokenSurgery", "CrashClient", "GenBurst", "CrossResponse",
 ];
 pub const K_NEWCLIENT: u8 = 0;
 pub const K_TICKCLIENT: u8 = 1;
@@ -41,6 +41,7 @@ pub const K_TELEPORT: u8 = 19;
 pub const K_TOKENSURGERY: u8 = 20;
 pub const K_CRASH: u8 = 21;
 pub const K_GENBURST: u8 = 22;
+pub const K_CROSSRESP: u8 = 23;
 
 pub const T_REQUEST: u8 = 0;
 pub const T_DENIED: u8 = 1;
@@ -314,6 +315,10 @@ impl WorldB {
             *b = (x >> 33) as u8;
         }
         user_data[0] = tag as u8;
+        if self.cfg.get("ud_shared") == 1 {
+            // an application that puts the same user data into every token (a lobby name, zeroes): tokens differ by id and keys only
+            user_data = [0x5A; 256];
+        }
         let key = if variant == 1 {
             let mut k = self.server_key;
             k[0] ^= 0x55;
@@ -504,6 +509,9 @@ pub fn gen_cfg(family: &str, rng: &mut Rng) -> Cfg {
     }
     if family == "liveness" || family == "handshake" {
         cfg.set("heal_lag", rng.below(2));
+    }
+    if family != "liveness" {
+        cfg.set("ud_shared", if rng.chance(1, 4) { 1 } else { 0 });
     }
     cfg
 }
